@@ -54,6 +54,34 @@ CHECKS = {
         ]},
         "assumptions": COMMON_ASSUMPTIONS,
     },
+    "C10": {
+        "test": "TestC10",
+        "level": "exploration",
+        "text": "Generated create/update/remove histories (all spawn-time classes, equal spawn times, chain-id and owner changes, opt-ins, failing launches, rescheduling, stops and deletions; a dedicated generator creates 201+ consumers due in one block) on the real provider app. After every block a reference phase machine, the raw spawn queue, the launch schedule of that block (first 200 due, remainder kept) and the artefacts of successful and failed launches are checked. Exploration only.",
+        "note": "Trusted: harness block driver; raw-store decoding by the independent key-layout table (cross-checked against the code's prefix list at start-up). Whether a due launch must succeed is only decided in clear-cut cases; in between only consistency is checked.",
+        "technique": "stateful property-based testing (rapid) against a reference phase machine and a launch-schedule model read from the raw time queue",
+        "rule": "histories of create/update/remove/opt-in/key/staking txs and block-time steps; non-trivial = the case contains at least one successful and one failed launch (bulk part: more than 200 consumers due in one block); distinct = distinct (config, trace) hash",
+        "quick": {"parts": [
+            {"test": "TestC10", "cases": 640, "steps": 70, "floors": {"_nontrivial": 80, "reschedule": 20}},
+            {"test": "TestC10Bulk", "cases": 16, "steps": 25, "floors": {">200-due": 8}},
+        ]},
+        "thorough": {"parts": [
+            {"test": "TestC10", "cases": 12000, "steps": 110, "floors": {"_nontrivial": 1000}},
+            {"test": "TestC10Bulk", "cases": 160, "steps": 30, "floors": {">200-due": 80}},
+        ]},
+        "assumptions": COMMON_ASSUMPTIONS,
+    },
+    "C14": {
+        "test": "TestC14",
+        "level": "exploration",
+        "text": "Generated matrix sampling of message type x sender class (owner, previous owner, stranger, governance authority via real proposals, validator operator, other validator) x consumer phase on the real provider app, every tx signed by the chosen sender and routed through baseapp. Reference authorisation rules decide which messages may be accepted; ownership, Top-N/owner coupling, provider parameters, global reward denoms and per-validator records are compared before/after every block and every change must be explained by an accepted message of an entitled sender. Exploration only.",
+        "note": "Trusted: harness block driver and tx signing; x/gov executes authority messages. The 'rejected messages leave the state unchanged' clause is enforced by baseapp's cache-wrapping of message execution and is exercised, not separately diffed.",
+        "technique": "stateful property-based testing (rapid) with a reference authorisation model and before/after attribution of every ownership, parameter and per-validator record change",
+        "rule": "histories sampling message type x sender class x phase; non-trivial = the case has an accepted owner message and a rejected message of a non-entitled sender; distinct = distinct (config, trace) hash",
+        "quick": {"cases": 640, "steps": 70, "floors": {"_nontrivial": 150, "sender:stranger/rejected": 100, "sender:other-validator/rejected": 100, "sender:gov/accepted": 50, "sender:non-authority/rejected": 100}},
+        "thorough": {"cases": 12000, "steps": 110, "floors": {"_nontrivial": 3000}},
+        "assumptions": COMMON_ASSUMPTIONS,
+    },
     "C15": {
         "test": "TestC15",
         "level": "exploration",
